@@ -1119,6 +1119,9 @@ DLLIMPORT cfg_value_t *cfg_setopt(cfg_t *cfg, cfg_opt_t *opt, const char *value)
 				for (i = 0; i < opt->nvalues && val == NULL; i++) {
 					cfg_t *sec = opt->values[i]->section;
 
+					if (!sec->title)
+						continue;
+
 					if (is_set(CFGF_NOCASE, cfg->flags)) {
 						if (strcasecmp(value, sec->title) == 0)
 							val = opt->values[i];
@@ -2454,6 +2457,30 @@ DLLIMPORT cfg_t *cfg_addtsec(cfg_t *cfg, const char *name, const char *title)
 		cfg_error(cfg, _("no such option '%s'"), name);
 		return NULL;
 	}
+
+	/* Only a section can be added, and a titled one needs its title */
+	if (opt->type != CFGT_SEC || (!title && is_set(CFGF_TITLE, opt->flags))) {
+		errno = EINVAL;
+		return NULL;
+	}
+
+	/*
+	 * cfg_setopt() replaces a section whose title matches by the case
+	 * rule of the context: such a title exists, too.
+	 */
+	if (title && is_set(CFGF_TITLE, opt->flags)) {
+		unsigned int i;
+
+		for (i = 0; i < cfg_opt_size(opt); i++) {
+			cfg_t *sec = cfg_opt_getnsec(opt, i);
+
+			if (!sec || !sec->title)
+				continue;
+			if (is_set(CFGF_NOCASE, cfg->flags) ? strcasecmp(title, sec->title) == 0 : strcmp(title, sec->title) == 0)
+				return NULL;
+		}
+	}
+
 	val = cfg_setopt(cfg, opt, title);
 	if (!val)
 		return NULL;
